@@ -195,6 +195,24 @@ def check_ops(case, ctx):
             unit_clause(ctx, r, x)
             rqn = case.p["rq"] / np.linalg.norm(case.p["rq"])
             ctx.le("rotate_by(q) rows = q * row", max(np.abs(x[i] - rq.qmul(rqn, stored[i])).max() for i in range(len(stored))), 1e-14, route=r)
+    # the same operation on an array that was deliberately stored non-normalised (versors=False), also in place
+    scales = 0.25 + 3.0 * np.abs(np.sin(np.arange(len(Q)) + Q[0, 0]))
+    raw = stored * scales[:, None]
+    rqn = case.p["rq"] / np.linalg.norm(case.p["rq"])
+    for how in ("returned", "inplace"):
+        def run():
+            A = ahrs.QuaternionArray(raw.copy(), versors=False)
+            if how == "returned":
+                return A.rotate_by(case.p["rq"].copy())
+            A.rotate_by(case.p["rq"].copy(), inplace=True)
+            return np.array(A.array, float)
+        out = call(run)
+        if ctx.returned(out, clause="no-exception[versors=False, %s]" % how, route=r):
+            x = as_real_array(ctx, out.value, stored.shape, route=r, what="rotated array")
+            if x is not None:
+                unit_clause(ctx, r, x)
+                ctx.le("rotate_by(q) on a non-normalised array: rows = q * unit(row)", max(np.abs(x[i] - rq.qmul(rqn, stored[i])).max() for i in range(len(stored))), 1e-14,
+                       {"how": how}, route=r)
     r = "QuaternionArray.average"
     w = case.p["weights"] if case.p["use_weights"] else None
     out = call(lambda: ahrs.QuaternionArray(Q.copy()).average(weights=None if w is None else w.copy()))
